@@ -179,13 +179,15 @@ Definition translate (p : body) : list stmt := translate_from [] p.
 
 (* ---- ExpressionInterpreter's function table ------------------------------------------------ *)
 (* The generated programs carry the REFERENCE meaning of every intrinsic: NM-TRAN's MOD is the
-   Fortran remainder (sign of the dividend), function symbol F_FMOD.  ExpressionInterpreter.mod
-   returns sympy.Mod, the floored modulo (sign of the divisor), function symbol F_MOD of
-   Base/Interp.v.  All other intrinsics are mapped to functions of the same meaning (INT to
-   sign*floor(abs), the protected functions to the Piecewise of their definition), which the
-   correspondence checks by evaluation. *)
+   Fortran remainder (sign of the dividend), function symbol F_FMOD.  Since fix 81bb571
+   ExpressionInterpreter.mod builds x - y*INT(x/y), an expression with exactly that meaning
+   (before, it returned sympy.Mod, the floored modulo F_MOD of Base/Interp.v: finding
+   C01-MOD-SIGN, fixed).  So every intrinsic is now mapped to a function of the same meaning
+   (INT to sign*floor(abs), MOD to x - y*INT(x/y), the protected functions to the Piecewise of
+   their definition); which expression is built is checked by the correspondence by evaluation,
+   and the table is the identity on function symbols. *)
 Definition F_FMOD : id := 20%positive.
-Definition read_fn2 (f : id) : id := if Pos.eqb f F_FMOD then F_MOD else f.
+Definition read_fn2 (f : id) : id := f.
 
 Fixpoint read_expr (e : expr) : expr :=
   match e with
@@ -223,38 +225,6 @@ with read_branches (brs : branches) : branches :=
 
 (* the whole reading of a code record: interpret the expressions, then build the statements *)
 Definition read_code (p : body) : list stmt := translate (read_body p).
-
-(* g_no_mod: the program does not call MOD *)
-Fixpoint uses_fn2 (f : id) (e : expr) : bool :=
-  match e with
-  | Num _ | Sym _ | PwNil => false
-  | Fn1 _ a | Neg a => uses_fn2 f a
-  | Fn2 g a b => Pos.eqb g f || uses_fn2 f a || uses_fn2 f b
-  | Add a b | Mul a b | Div a b => uses_fn2 f a || uses_fn2 f b
-  | PwCons c a rest => uses_fn2c f c || uses_fn2 f a || uses_fn2 f rest
-  end
-with uses_fn2c (f : id) (c : cond) : bool :=
-  match c with
-  | CTrue | CFalse => false
-  | CRel _ a b => uses_fn2 f a || uses_fn2 f b
-  | CAnd a b | COr a b => uses_fn2c f a || uses_fn2c f b
-  | CNot a => uses_fn2c f a
-  end.
-
-Fixpoint mod_free_stmt (s : nmstmt) : bool :=
-  match s with
-  | NAssign _ e => negb (uses_fn2 F_FMOD e)
-  | NIf c _ e => negb (uses_fn2c F_FMOD c) && negb (uses_fn2 F_FMOD e)
-  | NBlock brs els => mod_free_branches brs && mod_free_body els
-  end
-with mod_free_body (b : body) : bool :=
-  match b with BNil => true | BCons s tl => mod_free_stmt s && mod_free_body tl end
-with mod_free_branches (brs : branches) : bool :=
-  match brs with
-  | BrNil => true
-  | BrCons c b tl => negb (uses_fn2c F_FMOD c) && mod_free_body b && mod_free_branches tl
-  end.
-Definition g_no_mod (p : body) : bool := mod_free_body p.
 
 (* ------------------------------------------------------------------------------------------ *)
 (* 3. guards                                                                                   *)
